@@ -545,7 +545,7 @@ func c06Mid(full bool) []caldav.CompFilter {
 	var out []caldav.CompFilter
 	props := c06PropFilters(true)
 	leafs := c06Leafs()
-	hit := [2]time.Time{c06T0.Add(3 * time.Hour), c06T0.Add(5 * time.Hour)}   // overlaps e1/ea, not e2
+	hit := [2]time.Time{c06T0.Add(3 * time.Hour), c06T0.Add(5 * time.Hour)}    // overlaps e1/ea, not e2
 	miss := [2]time.Time{c06T0.Add(20 * time.Hour), c06T0.Add(22 * time.Hour)} // overlaps nothing
 	ranges := [][2]time.Time{{}, hit, miss}
 	for _, n := range []string{"VEVENT", "VTODO", "VTIMEZONE"} {
